@@ -22,6 +22,10 @@ fn gen(seed: u64, idx: u64, _tier: Tier) -> Plan {
     s.source = if rng.chance(1, 2) { ConfigSource::File } else { ConfigSource::Env };
     world_knobs(&mut rng, &mut plan, false);
     plan.world.flow_hash = None; // arbitrary distribution: reach every worker's certificate
+    if idx % 3 == 1 {
+        // a failed send must not change what later responses carry
+        plan.world.faults.send_err = *rng.pick(&[20u32, 100]);
+    }
     plan.world.rcv_cap = 4096;
     let workers = s.workers as u64;
     plan.server = Some(s);
